@@ -7,6 +7,10 @@
 // `buf build -o -` is run in-process on scratch directories for the CLI observation point. The oracle is a
 // reference model written here (targeting, closure, topological predicate, owner) plus a bare
 // protocompile.Compiler run over the same texts (descriptors, source info, warnings, error positions).
+//
+// Round 2 added: .proto file references as the input (protofile.go), custom options declared at every nesting
+// placement observed through every output encoding (options.go, textfmt.go), and import paths respelled in
+// non-canonical ways as planted compile errors (errors.go).
 package c01
 
 import (
